@@ -437,7 +437,7 @@ def setEnabled (b : Option Bool) (s : St) : St :=
 /-- script_hook_entry runs inside mcount_entry_filter_record: a frame was pushed, it is
     not NORECORD, and the trigger has no `finish` action (that branch returns before the
     hook); the fast build has no script hooks.  `s` is the state before the entry hook. -/
-def entryHook (cfg : Cfg) (k : Kind) (s : St) (addr now : Nat) : Option HCtx :=
+def entryHook (cfg : Mcount.Cfg) (k : Kind) (s : St) (addr now : Nat) : Option HCtx :=
   match (entry cfg k s addr now).1.frames with
   | [] => none
   | f :: _ =>
@@ -449,7 +449,7 @@ def entryHook (cfg : Cfg) (k : Kind) (s : St) (addr now : Nat) : Option HCtx :=
 /-- script_hook_exit at the end of mcount_exit_filter_record: the frame is not NORECORD and
     — before the repair of finding F-C18-EXITHOOK (`fixed = false`) — tracing is enabled
     (`if (!mcount_enabled) return;` comes first).  `s` is the state before the exit hook. -/
-def exitHook (fixed : Bool) (cfg : Cfg) (s : St) (now : Nat) : Option HCtx :=
+def exitHook (fixed : Bool) (cfg : Mcount.Cfg) (s : St) (now : Nat) : Option HCtx :=
   if s.over > 0 then none else
   match s.frames with
   | [] => none
@@ -472,7 +472,7 @@ def logExit (funcs : List Nat) : Option HCtx → List HookEv
 mutual
   /-- `Uft.Mcount.runCall` with the script hooks logged; `env t` is what another thread
       stored into `mcount_enabled` just before this thread's hook at time `t` -/
-  def runCallH (fixed : Bool) (funcs : List Nat) (cfg : Cfg) (k : Kind) (env : Nat → Option Bool) :
+  def runCallH (fixed : Bool) (funcs : List Nat) (cfg : Mcount.Cfg) (k : Kind) (env : Nat → Option Bool) :
       St → Call → St × List HookEv
     | s, .node f t0 t1 kids =>
       let s0 := setEnabled (env t0) s
@@ -483,7 +483,7 @@ mutual
          logEntry funcs (entryHook cfg k s0 f t0) ++ p.2 ++
            logExit funcs (exitHook fixed cfg (setEnabled (env t1) p.1) t1))
       else (p.1, logEntry funcs (entryHook cfg k s0 f t0) ++ p.2)
-  def runCallsH (fixed : Bool) (funcs : List Nat) (cfg : Cfg) (k : Kind) (env : Nat → Option Bool) :
+  def runCallsH (fixed : Bool) (funcs : List Nat) (cfg : Mcount.Cfg) (k : Kind) (env : Nat → Option Bool) :
       St → Calls → St × List HookEv
     | s, .nil => (s, [])
     | s, .cons c rest =>
